@@ -89,7 +89,7 @@ class Node:
         self.calls = []
         for n, anc in hir.walk(self.body):
             if n.get("k") == "Call" and hir.callee_of(n) in SEARCHERS:
-                self.calls.append(self._call(n, anc))
+                self.calls.extend(self._split(self._call(n, anc)))
         self.loops = self._loops()
 
     def guards(self, n, in_loop=False):
@@ -120,6 +120,9 @@ class Node:
         user = up[i] if i < len(up) else None
         if user is not None and user.get("k") == "SLet" and user["pat"].get("k") == "PBind":
             let = user["pat"]["name"]
+        elif user is not None and user.get("k") == "Assign" and hir.strip(user["l"]).get("k") == "Path" and \
+                hir.strip(user["l"])["to"].get("res") == "local":
+            let = hir.strip(user["l"])["to"]["name"]        # `score = -search(..)?`: re-binding of a result variable
         s = self.sym(n)
         callee = hir.callee_of(n)
         args = list(s[2])
@@ -132,6 +135,30 @@ class Node:
         return {"node": n, "callee": callee, "negs": negs, "try": tried, "let": let, "user": user.get("k") if user else None,
                 "args": a, "nargs": len(args), "pending": pend[0] if pend and len(set(pend)) == 1 else None,
                 "line": hir.line(n), "guards": self.guards(n, in_loop=True), "in_loop": any(a_.get("k") == "Loop" for a_ in anc)}
+
+    def _split(self, c):
+        """one call whose window is chosen by a condition in argument position (`if first { beta } else { alpha + 1 }`) is one call
+        per case, each under that case's condition: the same discipline as two calls under complementary conditions"""
+        a = c["args"]
+        if not a or not any(x[:1] in (("if",), ("match",)) for k_ in ("alpha", "beta") for x in hir.subterms(a.get(k_, ()))):
+            return [c]
+        try:
+            cases = hir.lift_ifs(("tup", a["alpha"], a["beta"]), limit=8)
+        except ValueError:
+            return [c]
+        out = []
+        for conds, v in cases:
+            extra = []
+            for cond, pol in conds:
+                if isinstance(cond, tuple) and cond[:1] == ("matches",):
+                    extra = None
+                    break
+                extra.append((hir.fmt(hir.canon(hir.resolve_consts(cond, self.F)), 240), pol))
+            if extra is None or v[:1] != ("tup",):
+                return [c]
+            c2 = dict(c, args=dict(a, alpha=v[1], beta=v[2]), guards=list(c["guards"]) + extra, split=True)
+            out.append(c2)
+        return out or [c]
 
     def _loops(self):
         out = []
@@ -147,11 +174,25 @@ class Node:
                             "searches": [c for c in self.calls if any(x is c["node"] for x, _ in hir.walk(n))]})
         return out
 
-    def let_def(self, name):
+    def let_def(self, name, _depth=0):
         """the searcher call a local is bound to (let name = -call(..)?), or None"""
         for c in self.calls:
             if c["let"] == name:
                 return c
+        # an alias: `let mut score = r;` / `score = r;` with r bound to a searcher call (the value an expanded helper hands back)
+        if _depth < 4:
+            for n, _ in hir.walk(self.body):
+                src = None
+                if n.get("k") == "SLet" and n["pat"].get("k") == "PBind" and n["pat"].get("name") == name and n.get("init") is not None:
+                    src = hir.strip(n["init"])
+                elif n.get("k") == "Assign" and hir.strip(n["l"]).get("to", {}).get("name") == name:
+                    src = hir.strip(n["r"])
+                while src is not None and src.get("k") == "Block" and src.get("expr") is not None:
+                    src = hir.strip(src["expr"])
+                if src is not None and src.get("k") == "Path" and src["to"].get("res") == "local" and src["to"]["name"] != name:
+                    d = self.let_def(src["to"]["name"], _depth + 1)
+                    if d is not None:
+                        return d
         return None
 
 
@@ -164,7 +205,7 @@ def run(ctx):
     b4(ctx, F, nodes)
     b5(ctx, F, nodes)
     b6(ctx, F, nodes)
-    ctx.floor("C09.B1", "searcher-calls", sum(len(n.calls) for n in nodes.values()), 10)
+    ctx.floor("C09.B1", "searcher-calls", sum(len(n.calls) for n in nodes.values()), 6)       # 10 on the reference tree
     ctx.note("not decided: equality of the returned value with an unpruned reference search (numerical; needs a reference run); "
              "transposition-table interaction (the property disables the table); what the leaf rule calls a tactical move")
 
@@ -324,6 +365,12 @@ def b3(ctx, F, nodes):
                         gens += 1
                     else:
                         bad.append((hir.line(n), "&mut moves passed to " + str(hir.callee_of(par) or par.get("k"))))
+            if n.get("k") == "MethodCall" and hir.callee_of(n) == "chess::Game::get_moves" and n.get("args"):
+                a0 = n["args"][0]
+                while a0.get("k") in ("Use", "Type"):
+                    a0 = a0["e"]
+                if a0.get("k") == "Path" and a0.get("to", {}).get("name") == "moves":
+                    gens += 1          # the list handed on by reference (the generation call of an expanded helper)
         ctx.check("C09.B3", "list-only-permuted-before-the-loop:" + short, not bad and gens == 1, fn=p, file=nd.fn["file"],
                   line=bad[0][0] if bad else nd.fn["span"][0],
                   what="between generation and the move loop the list may only be reordered; removing, truncating or filtering moves "
@@ -589,6 +636,38 @@ def b5(ctx, F, nodes):
               what="Game::score returns the incrementally maintained sum (C16)", found=t)
 
 
+def _bound_cases(nd, name, depth=0):
+    """the (case-split) searcher calls whose result the local `name` can hold: bound directly, or through `name = other`"""
+    out = [c for c in nd.calls if c["let"] == name]
+    if depth < 4:
+        for n, _ in hir.walk(nd.body):
+            src = None
+            if n.get("k") == "SLet" and n["pat"].get("k") == "PBind" and n["pat"].get("name") == name and n.get("init") is not None:
+                src = hir.strip(n["init"])
+            elif n.get("k") == "Assign" and hir.strip(n["l"]).get("to", {}).get("name") == name:
+                src = hir.strip(n["r"])
+            while src is not None and src.get("k") == "Block" and src.get("expr") is not None:
+                src = hir.strip(src["expr"])        # `x = { ..statements of an expanded helper..; value }`
+            if src is not None and src.get("k") == "Path" and src["to"].get("res") == "local" and src["to"]["name"] != name:
+                out += _bound_cases(nd, src["to"]["name"], depth + 1)
+    return out
+
+
+def _probe_overwritten_when_better(nd, name):
+    """A null-window probe only says whether the move beats the bound.  If `name` can hold a probe result, every such case must be
+    followed by a re-search into the same variable under `probe > best_score` (or `> lower bound`): then the probe value survives
+    only where it did not beat the best score (and raising the bound with it changes nothing)."""
+    low = LOWER[nd.path]
+    cases = _bound_cases(nd, name)
+    kinds = [(c, _window_ok(nd, c)[2] if c["args"] and c["pending"] else None) for c in cases]
+    nulls = [c for c, k in kinds if k == "null"]
+    if not nulls:
+        return True
+    later = [c for c, k in kinds if k in ("re-search", "full") and c["line"] >= min(x["line"] for x in nulls) and c not in nulls]
+    better = {("(best_score < %s)" % name, True), ("(%s < %s)" % (low, name), True)}
+    return any(better & set(c["guards"]) for c in later)
+
+
 def b6(ctx, F, nodes):
     for p, nd in nodes.items():
         low = LOWER[p]
@@ -614,6 +693,11 @@ def b6(ctx, F, nodes):
             if v[0] == "call" and v[1] == "std::cmp::Ord::max" and ("var", low) in v[2]:
                 other = [x for x in v[2] if x != ("var", low)]
                 ok = len(other) == 1 and other[0][0] == "var" and (nd.let_def(other[0][1]) is not None or p == Q)
+                if ok and p != Q and not _probe_overwritten_when_better(nd, other[0][1]):
+                    ok = False
+                    bad.append((hir.line(n), "%s is the result of a null-window probe that can reach this assignment although it exceeded the "
+                                             "best score (it is a bound, not a value: only its re-search may raise %s)" % (other[0][1], low)))
+                    continue
             elif v[0] == "var":
                 r = v[1]
                 d = nd.let_def(r)
